@@ -8,7 +8,8 @@ drv = importlib.util.module_from_spec(spec)
 sys.argv = ["check"]
 loader.exec_module(drv)
 bad = 0
-for pid in sorted(drv.PROPS):
+claimed = set(l.strip() for l in open(os.path.join(ROOT, 'tools', 'claimed.txt')) if l.strip())
+for pid in sorted(p for p in drv.PROPS if p in claimed):
     ok, log = drv.build_coq(pid)
     if not ok:
         print("setup: Coq/runner build failed for %s:\n%s" % (pid, log[-2000:])); bad += 1
